@@ -246,8 +246,9 @@ SPECS["C07"] = {
 # ---------------------------------------------------------------------------------------------- C08
 def plan_c08(tier, seed):
     if tier == "quick":
-        return checks("main", 8, 12000) + shards("plain", "least-slack-2", 8)
-    return checks("main", 14, 150000) + checks("nohook_avx2", 2, 100000) + shards("plain", "least-slack-200", 16, timeout=7000)
+        return checks("main", 8, 12000) + shards("plain", "least-slack-2", 8) + shards("main", "huge-strings", 4)
+    return (checks("main", 14, 150000) + checks("nohook_avx2", 2, 100000) + shards("plain", "least-slack-200", 16, timeout=7000)
+            + shards("main", "huge-strings", 4) + shards("nohook_avx2", "huge-strings", 4))
 
 
 SPECS["C08"] = {
